@@ -41,6 +41,7 @@ pub struct Node {
 	pub bcast: Arc<Bcast>,
 	pub fee: Arc<Fee>,
 	pub logger: Arc<RingLogger>,
+	pub router: Arc<NoRouter>,
 	pub id: PublicKey,
 	/// manager snapshots taken by the scenario: (step, bytes)
 	pub snapshots: Vec<(u64, Vec<u8>)>,
@@ -75,12 +76,13 @@ impl Node {
 	pub fn new(idx: usize, cfg: NodeCfg, log: &Arc<EvLog>, fee_now: u32, best: BlockLocator) -> Node {
 		let (keys, bcast, fee, logger, persister, mon, watch) = parts(idx, &cfg, log, fee_now, None, 0);
 		let params = ChainParameters { network: Network::Regtest, best_block: best };
-		let mgr = ChannelManager::new(fee.clone(), watch.clone(), bcast.clone(), Arc::new(NoRouter), Arc::new(NoRouter), logger.clone(), keys.clone(), keys.clone(), keys.clone(), cfg.user.clone(), params, 1_700_000_000);
+		let router = Arc::new(NoRouter::default());
+		let mgr = ChannelManager::new(fee.clone(), watch.clone(), bcast.clone(), router.clone(), Arc::new(NoRouter::default()), logger.clone(), keys.clone(), keys.clone(), keys.clone(), cfg.user.clone(), params, 1_700_000_000);
 		let id = mgr.get_our_node_id();
 		if let Some(mp) = cfg.mup_max_pending {
 			*persister.shadow.lock().unwrap() = Some(Arc::new(crate::mupshadow::MupShadow::new(idx, &cfg, fee_now, mp)));
 		}
-		Node { idx, cfg, mgr, mon, watch, keys, persister, bcast, fee, logger, id, snapshots: vec![], generation: 0 }
+		Node { idx, cfg, mgr, mon, watch, keys, persister, bcast, fee, logger, router, id, snapshots: vec![], generation: 0 }
 	}
 
 	/// Rebuild a node from a serialized manager and the given monitor bytes (one per channel).
@@ -93,13 +95,14 @@ impl Node {
 			mons.push((*cid, m));
 		}
 		let refs: Vec<&ChannelMonitor<TapSigner>> = mons.iter().map(|(_, m)| m).collect();
-		let args = ChannelManagerReadArgs::new(keys.clone(), keys.clone(), keys.clone(), fee.clone(), watch.clone(), bcast.clone(), Arc::new(NoRouter), Arc::new(NoRouter), logger.clone(), cfg.user.clone(), refs);
+		let router = Arc::new(NoRouter::default());
+		let args = ChannelManagerReadArgs::new(keys.clone(), keys.clone(), keys.clone(), fee.clone(), watch.clone(), bcast.clone(), router.clone(), Arc::new(NoRouter::default()), logger.clone(), cfg.user.clone(), refs);
 		let (_bl, mgr) = <(BlockLocator, Mgr)>::read(&mut &mgr_bytes[..], args).map_err(|e| format!("ChannelManager read failed: {:?}", e))?;
 		for (cid, m) in mons {
 			mon.load_existing_monitor(cid, m).map_err(|_| "load_existing_monitor failed".to_string())?;
 		}
 		let id = mgr.get_our_node_id();
-		Ok(Node { idx, cfg, mgr, mon, watch, keys, persister, bcast, fee, logger, id, snapshots: vec![], generation })
+		Ok(Node { idx, cfg, mgr, mon, watch, keys, persister, bcast, fee, logger, router, id, snapshots: vec![], generation })
 	}
 
 	pub fn events(&self) -> Vec<Event> {
